@@ -202,8 +202,8 @@ example :
 
 /-! #### the exclusion inside `no_nondet_left`, made explicit
 `clean` counts `randomblob(<number literal>)` as non-deterministic only for literals the rewriter
-replaces (`blobLen v ≠ none`). Whether a token is a number literal is decided by the real parser
-(node kind `number`), independently of `blobLen`; the full statement over ALL number literals is
+replaces (`blobLenOfArgs args ≠ none`). Whether a token is a number literal is decided by the real parser
+(node kind `number`), independently of `blobBytes`; the full statement over ALL number literals is
 false, by design: a literal above SQLite's maximum blob length is left alone because SQLite rejects
 it on every node alike (exercised on real SQLite by the tie). -/
 
@@ -424,29 +424,6 @@ theorem identity_without_calls (c : Cfg) (n : Node) (h : noTarget n = true) :
   intro text fp render
   unfold processOut
   cases fp <;> simp [rewrite, h2]
-
-/-- `Process` for a statement TEXT holding several statements (all of which the driver executes):
-every statement is rewritten and kept; the text is replaced only when one of them changed. -/
-def processOutMulti (c : Cfg) (text : String) (parsed : List Node) (render : Node → String) : String :=
-  if parsed.any (fun n => (rewrite c n).2.modified) then
-    "; ".intercalate (parsed.map fun n => render (rewrite c n).1)
-  else text
-
-/-- a multi-statement text none of whose statements calls any of the nine functions is replicated
-byte for byte; otherwise every one of its statements is kept (as many rendered statements as parsed
-ones) and each is free of non-deterministic calls -/
-theorem multi_statement_text (c : Cfg) (text : String) (parsed : List Node) (render : Node → String) :
-    ((∀ n ∈ parsed, noTarget n = true) → processOutMulti c text parsed render = text) ∧
-    ((parsed.map fun n => (rewrite c n).1).length = parsed.length) ∧
-    (c.rwRand = true → c.rwTime = true → ∀ n ∈ parsed, clean false (rewrite c n).1 = true) := by
-  refine ⟨fun h => ?_, by simp, fun hr ht n _ => no_nondet_left c hr ht n⟩
-  unfold processOutMulti
-  have : parsed.any (fun n => (rewrite c n).2.modified) = false := by
-    rw [List.any_eq_false]
-    intro n hn
-    have := (identity_without_calls c n (h n hn)).2.1
-    simp [this]
-  simp [this]
 
 /-! #### splitting a text into statements
 The parser is the parameter `accepts`; nothing here knows a keyword. -/
@@ -1038,6 +1015,67 @@ theorem replicated_clean (c : Cfg) (hr : c.rwRand = true) (ht : c.rwTime = true)
   cases hm : (rewrite c n).2.modified
   · simpa using unmodified_clean c hr ht n hm
   · simpa using no_nondet_left c hr ht n
+
+/-! #### a text holding several statements, part by part -/
+
+/-- one part of a multi-statement text as `splitStatements` yields it: the parser's tree (`none`: a
+piece at which no statement the parser accepts starts) and the part's own text -/
+abbrev Part := Option Node × String
+
+/-- what `processMulti` puts in the place of one part: the printed rewritten tree when the rewriter
+reports a modification, the part's OWN TEXT otherwise - also for a piece without a tree. (The text
+between the parts - semicolons, empty statements, comments - is copied from the original by byte
+position and is not modelled.) -/
+def partOut (c : Cfg) (render : Node → String) : Part → String
+  | (some n, raw) => if (rewrite c n).2.modified then render (rewrite c n).1 else raw
+  | (none, raw) => raw
+
+def processParts (c : Cfg) (render : Node → String) (parts : List Part) : List String :=
+  parts.map (partOut c render)
+
+/-- A text holding several statements, part by part:
+(i) when no part calls any of the nine functions every part keeps its own text (the text is
+replicated byte for byte) - whatever the pre-filters said;
+(ii) position by position, a part whose tree the rewriter does not modify - or which has no tree - keeps
+its own text, whatever happens to the other parts;
+(iii) a part the rewriter modifies is replaced by the printed rewritten tree;
+(iv) with both flags on, the tree replicated for every part that has one (`replicated`: rewritten or
+original) is free of non-deterministic calls. -/
+theorem multi_statement_text (c : Cfg) (render : Node → String) (parts : List Part) :
+    ((∀ p ∈ parts, ∀ n, p.1 = some n → noTarget n = true) →
+      processParts c render parts = parts.map (·.2)) ∧
+    (∀ i (hi : i < parts.length), (∀ n, parts[i].1 = some n → (rewrite c n).2.modified = false) →
+      (processParts c render parts)[i]? = some parts[i].2) ∧
+    (∀ i (hi : i < parts.length) n, parts[i].1 = some n → (rewrite c n).2.modified = true →
+      (processParts c render parts)[i]? = some (render (rewrite c n).1)) ∧
+    (c.rwRand = true → c.rwTime = true → ∀ p ∈ parts, ∀ n, p.1 = some n → clean false (replicated c n) = true) := by
+  refine ⟨fun h => ?_, fun i hi h => ?_, fun i hi n hn hm => ?_, fun hr ht _ _ n _ => replicated_clean c hr ht n⟩
+  · unfold processParts
+    apply List.map_congr_left
+    intro p hp
+    obtain ⟨t, raw⟩ := p
+    cases t with
+    | none => rfl
+    | some n =>
+      have := (identity_without_calls c n (h _ hp n rfl)).2.1
+      simp [partOut, this]
+  · simp only [processParts, List.getElem?_map, List.getElem?_eq_getElem hi, Option.map_some, Option.some.injEq]
+    generalize parts[i] = p at h
+    obtain ⟨t, raw⟩ := p
+    cases t with
+    | none => rfl
+    | some n => simp [partOut, h n rfl]
+  · simp only [processParts, List.getElem?_map, List.getElem?_eq_getElem hi, Option.map_some, Option.some.injEq]
+    generalize parts[i] = p at hn
+    obtain ⟨t, raw⟩ := p
+    simp only at hn
+    subst hn
+    simp [partOut, hm]
+
+example : processParts ⟨true, true, fun _ => 7, "0"⟩ (fun _ => "<printed>")
+    [(some (.other "S" (.cons (.call "random" .nil .nil) .nil)), "select random()"), (none, " create temp table x(a)"),
+     (some (.other "S" (.cons (.lit "int" "1") .nil)), " select 1 -- kept")] =
+    ["<printed>", " create temp table x(a)", " select 1 -- kept"] := by decide
 
 /-- Process-level statement: for every text the parser accepts, every statement that is replicated
 - rewritten, or original because the rewriter reported no modification, or original because the
